@@ -83,6 +83,13 @@ func colAlts() []colAlt {
 		// jsonb structs whose first (resp. middle) field is not written in JSON
 		{label: "HiddenFirst", typ: "HiddenFirst", declB: "type HiddenFirst struct {\n\thidden int\n\tNick   string\n\tTags   []string\n}\n"},
 		{label: "DashMiddle", typ: "DashMiddle", declB: "type DashMiddle struct {\n\tNick string\n\tSkip int `json:\"-\"`\n\tTags []string\n}\n"},
+		// an embedded struct of unexported type with exported fields, inside a jsonb struct
+		{label: "Stamped", typ: "Stamped", declB: "type audit struct {\n\tAuthor   string\n\tRevision int\n}\n\ntype Stamped struct {\n\taudit\n\tTitle string\n\tTags  []string\n}\n"},
+		// integer exported fields and one ignored field that is not an integer
+		{label: "PosLabel", typ: "PosLabel", declB: "type PosLabel struct {\n\tA     int\n\tB     int\n\tlabel string\n}\n"},
+		// named slice / array of an enum backed by int64 / int32
+		{label: "Levels64", typ: "Levels64", declB: "type Level64 int64\n\nconst (\n\tL64a Level64 = iota\n\tL64b\n)\n\ntype Levels64 []Level64\n"},
+		{label: "Levels32x3", typ: "Levels32x3", declB: "type Level32 int32\n\nconst (\n\tL32a Level32 = iota\n\tL32b\n)\n\ntype Levels32x3 [3]Level32\n"},
 		{label: "Attrs", typ: "Attrs", declB: "type Attrs map[string]int\n"},
 		{label: "Profiles", typ: "Profiles", declB: "type Profiles []Pos2\n\ntype Pos2 struct {\n\tLabel string\n\tX     int\n}\n"},
 		{label: "Shape", typ: "Shape", declB: tblUnion},
@@ -190,7 +197,7 @@ func TablesWith(c explore.Chooser, defaultCol string) *prog.Program {
 	guard := s.Pick("guard", "none", "literal", "enum-placeholder", "unexported-literal", "string-enum-placeholder", "literal-before-id", "two-literals")
 	userDir := s.Pick("user.directive", userDirectives...)
 	linkDir := s.Pick("link.directive", linkDirectives...)
-	style := s.Pick("decl.style", "separate", "grouped-spec-docs", "grouped-group-doc", "plain-comment-between", "directive-on-neighbour", "comment-after-directive")
+	style := s.Pick("decl.style", "separate", "grouped-spec-docs", "grouped-group-doc", "plain-comment-between", "directive-on-neighbour", "comment-after-directive", "same-directive-on-two")
 	tableName := s.Pick("name.table", "User", "UserAccount", "U", "HTTPLog", "Log2Entry", "Address", "userData", "Point2D", "Api2HTTPLog")
 	extraFK := s.Pick("user.extra-fk", "none", "team", "team-unique", "team-unique-nullable", "team-unique-wrapper")
 	teamSlot := s.Pick("team.slot", "none", "same-column")
@@ -349,6 +356,9 @@ func TablesWith(c explore.Chooser, defaultCol string) *prog.Program {
 	case "directive-on-neighbour":
 		// the directives are on Team (which has columns Id, Label only): keep only those that make sense there
 		a.WriteString(user + "\n\n" + doc("// gomacro:SQL ADD UNIQUE(Label)", team) + "\n\n" + doc(linkDir, member) + "\n")
+	case "same-directive-on-two":
+		// two structs carry the very same comment text: each table gets its own constraint
+		a.WriteString(doc(joinDoc(userDir, "// gomacro:SQL ADD CHECK(1 = 1)"), user) + "\n\n" + doc("// gomacro:SQL ADD CHECK(1 = 1)", team) + "\n\n" + doc(linkDir, member) + "\n")
 	case "comment-after-directive":
 		a.WriteString(doc(joinDoc(userDir, "//\n// Deprecated: use Account."), user) + "\n\n" + team + "\n\n" + doc(linkDir, member) + "\n")
 	}
